@@ -24,6 +24,32 @@ type Spec struct {
 	off     bool         // oracle suspended (fault ops, storage errors...)
 	results map[int]*specRes
 	fails   int
+	prop    string // property of the running profile (tags the state oracles)
+
+	// observation sweeps (count / all / dump), for the before/after oracles of C06, C07
+	sweep     []string // lines of the sweep being collected
+	lastSweep string   // digest of the last complete sweep (count+all+dump)
+	pending   *failedWrite
+	lastDump  []string
+	faulted   bool // a storage fault was injected in this history
+	lastCtl   string
+	lastFault string // "<kind>:<object|schema|dir>" of the injected fault that fired
+	faultOp   string // new | update | many | ...
+
+	// C05: state at a simulated crash
+	crashCtx   string       // "[crash call=<kind> at=<fault>]" once a crash happened
+	preCrash   map[int]Flat // accepted contents before the interrupted call
+	crashTouch map[int]Flat // objects the interrupted call was writing (uuid -> new canonical value; deleted: U=-1)
+	ackChecked bool
+	repaired   bool
+	loadFailed bool
+}
+
+// failedWrite: a write call that returned an error, with the sweep taken just before it
+type failedWrite struct {
+	op, class string
+	before    string
+	isUpdate  bool
 }
 
 type specRes struct {
@@ -33,7 +59,9 @@ type specRes struct {
 	lim int64
 }
 
-func NewSpec(c Cfg) *Spec { return &Spec{cfg: c, live: map[int]Flat{}, results: map[int]*specRes{}} }
+func NewSpec(c Cfg) *Spec {
+	return &Spec{cfg: c, live: map[int]Flat{}, results: map[int]*specRes{}}
+}
 
 func (s *Spec) fail(e *Exec, prop, format string, a ...interface{}) {
 	s.fails++
@@ -212,10 +240,26 @@ func (s *Spec) Check(e *Exec, t []string) {
 		}
 		if ft[0] == "o" && len(ft) > 1 && ft[1] == "fault" && ft[2] == "fired=1" {
 			s.off = true
+			s.faulted = true
+			s.lastFault = strings.TrimPrefix(ft[len(ft)-1], "at=")
+			s.faultOp = "new"
+			if t[0] == "ins" && !strings.HasPrefix(t[1], "R0|") {
+				s.faultOp = "update"
+			} else if t[0] != "ins" {
+				s.faultOp = t[0]
+			}
 		}
 	}
 	if r == nil {
 		return
+	}
+	if r[0] == "crash" {
+		s.onCrash(e, t, fresh)
+		return
+	}
+	s.stateOracles(e, t, r)
+	if s.crashCtx != "" {
+		s.afterCrash(e, t, r)
 	}
 	if r[0] == "panic" || r[0] == "hang" {
 		s.fail(e, "C19", "op %q: %s", strings.Join(t, " "), r[0])
@@ -589,6 +633,272 @@ func (s *Spec) checkCollect(e *Exec, t, r []string) {
 			s.fail(e, "C20", "%s returned deleted object #%d", t[0], f.U)
 		} else if cur.String() != tok {
 			s.fail(e, "C01", "%s returned stale content for #%d", t[0], f.U)
+		}
+	}
+}
+
+// stateOracles: model-independent before/after and agreement oracles.
+//   - a write call which returned a LOGICAL error must leave the observation sweep unchanged
+//     (C06; C07 for batches; C15 for invalid objects);
+//   - after a STORAGE fault either the sweep is unchanged, or Control reports it;
+//   - whenever an index dump is followed by a directory dump with no write pending, every index
+//     entry must agree with the file content of its object and every index must be sorted.
+func (s *Spec) stateOracles(e *Exec, t, r []string) {
+	switch t[0] {
+	case "count", "all", "dump":
+		if t[0] == "count" {
+			s.sweep = s.sweep[:0]
+		}
+		for _, l := range e.obs {
+			if strings.HasPrefix(l, "r ") || strings.HasPrefix(l, "s ") {
+				s.sweep = append(s.sweep, l)
+			}
+		}
+		if t[0] == "dump" {
+			s.lastDump = append([]string{}, e.obs...)
+			cur := strings.Join(s.sweep, "\n")
+			if p := s.pending; p != nil {
+				s.pending = nil
+				if cur != p.before {
+					switch {
+					case p.class == "storage":
+						s.pending = &failedWrite{op: p.op, class: "storage-diverged", before: p.before, isUpdate: p.isUpdate}
+					default:
+						prop := "C06"
+						if strings.HasPrefix(p.op, "many") || strings.HasPrefix(p.op, "bulk") {
+							prop = "C07"
+						}
+						if p.class == "invalid" {
+							prop = "C15"
+						}
+						s.fail(e, prop, "write rejected with %q left a trace: sweep before/after differ (op %.80s)", p.class, p.op)
+						if prop != "C06" {
+							s.fail(e, "C06", "write rejected with %q left a trace: sweep before/after differ (op %.80s)", p.class, p.op)
+						}
+					}
+				}
+			}
+			s.lastSweep = cur
+		}
+	case "ins", "many", "bulk":
+		if r[0] != "ok" && r[0] != "panic" && s.lastSweep != "" && !(t[0] == "bulk" && len(r) > 1 && r[1] != "0") {
+			isUpd := t[0] == "ins" && !strings.HasPrefix(t[1], "R0|")
+			s.pending = &failedWrite{op: strings.Join(t, " "), class: r[0], before: s.lastSweep, isUpdate: isUpd}
+		} else {
+			s.pending = nil
+		}
+		s.lastSweep = ""
+	case "control":
+		s.lastCtl = r[0]
+		if p := s.pending; p != nil && p.class == "storage-diverged" {
+			s.pending = nil
+			if r[0] == "ok" {
+				kind := "new"
+				if p.isUpdate {
+					kind = "update"
+				}
+				_ = kind
+				s.fail(e, "C06", "silent divergence after a storage fault [call=%s fault=%s]: the call returned an error, the state changed, Control reports nothing (op %.60s)", s.faultOp, s.lastFault, p.op)
+			}
+		}
+	case "fs":
+		s.agreement(e)
+	case "del", "delall", "sdel", "repair", "reopen", "close", "create", "commit", "flushall", "flushallc", "tick":
+		s.lastSweep = ""
+		if t[0] != "close" && t[0] != "reopen" {
+			s.pending = nil
+		}
+	}
+}
+
+// agreement: last index dump vs the files just listed (sync, nothing pending)
+func (s *Spec) agreement(e *Exec) {
+	if s.lastDump == nil || e.cfg.Async {
+		return
+	}
+	ids := map[string]string{} // oid -> U<n>
+	var ix [][]string
+	for _, l := range s.lastDump {
+		f := strings.Fields(l)
+		if len(f) >= 2 && f[0] == "s" && f[1] == "ids" {
+			for _, p := range f[2:] {
+				kv := strings.SplitN(p, ":", 2)
+				ids[kv[0]] = kv[1]
+			}
+		}
+		if len(f) >= 4 && f[0] == "s" && f[1] == "ix" {
+			ix = append(ix, f[2:])
+		}
+	}
+	files := map[string]Flat{}
+	nfiles := 0
+	bad := false
+	for _, l := range e.obs {
+		f := strings.Fields(l)
+		if len(f) >= 4 && f[0] == "s" && f[1] == "file" {
+			nfiles++
+			if f[3] == "BAD" {
+				bad = true
+				continue
+			}
+			fl := parseFlat(f[3])
+			files[strconv.Itoa(fl.U)] = fl
+		}
+	}
+	s.lastDump = nil
+	prop := s.prop
+	if prop == "" {
+		prop = "C11"
+	}
+	for _, fx := range ix {
+		fld, _ := strconv.Atoi(fx[0])
+		prev := ""
+		for _, en := range fx[2:] {
+			i := strings.LastIndexByte(en, ':')
+			key, oid := en[:i], en[i+1:]
+			if prev != "" {
+				if c := keyCmp(prev, key); c < 0 || c == 2 {
+					s.fail(e, prop, "index of field %d is not in non-increasing order: %s before %s", fld, prev, key)
+				}
+			}
+			prev = key
+			if s.lastCtl == "ok" && !bad && !s.off2() {
+				u, ok := ids[oid]
+				if !ok {
+					s.fail(e, prop, "index of field %d holds object id %s which is not in the id table", fld, oid)
+					continue
+				}
+				if fl, ok := files[u]; ok && fl.K[fld] != key && !(fl.K[fld][0] == 'f' && keyEq(fl.K[fld], key)) {
+					ctx := ""
+					if s.faulted {
+						ctx = fmt.Sprintf(" [call=%s fault=%s]", s.faultOp, s.lastFault)
+					}
+					s.fail(e, prop, "stale index entry%s: field %d of object #%s is %s in its file but %s in the index, and Control reports nothing", ctx, fld, u, fl.K[fld], key)
+				}
+			}
+		}
+	}
+}
+
+// off2: agreement between index and files is only demanded right after a successful Control
+func (s *Spec) off2() bool { return false }
+
+// onCrash: the process died inside call t. Remember what was acknowledged before it.
+func (s *Spec) onCrash(e *Exec, t []string, fresh []int) {
+	at := "?"
+	for _, l := range e.obs {
+		_ = l
+	}
+	at = s.lastFaultFromTrace(e)
+	kind := t[0]
+	if t[0] == "ins" {
+		kind = "new"
+		if !strings.HasPrefix(t[1], "R0|") {
+			kind = "update"
+		}
+	}
+	s.crashCtx = fmt.Sprintf("[crash call=%s at=%s]", kind, at)
+	s.faulted = true
+	s.faultOp, s.lastFault = kind, at
+	s.crashTouch = map[int]Flat{}
+	s.ackChecked, s.repaired, s.loadFailed = false, false, false
+	if !s.off {
+		s.preCrash = map[int]Flat{}
+		for k, v := range s.live {
+			s.preCrash[k] = v
+		}
+		fi := 0
+		for _, tok := range t[1:] {
+			if strings.HasPrefix(tok, "R") && strings.Contains(tok, "|") {
+				f := parseFlat(tok)
+				if f.U == 0 {
+					if fi < len(fresh) {
+						f.U = fresh[fi]
+					}
+					fi++
+				}
+				cf, _ := s.canon(f)
+				s.crashTouch[f.U] = cf
+			}
+		}
+		switch t[0] {
+		case "del":
+			u, _ := strconv.Atoi(t[1])
+			s.crashTouch[u] = Flat{U: -1}
+		case "delall", "sdel":
+			for u := range s.live {
+				s.crashTouch[u] = Flat{U: -1}
+			}
+		}
+	} else {
+		s.preCrash = nil
+	}
+	s.off = true
+	s.pending = nil
+	s.lastSweep = ""
+}
+
+func (s *Spec) lastFaultFromTrace(e *Exec) string { return e.lastFaultAt }
+
+// afterCrash: the property's own words, evaluated on the reopened directory
+func (s *Spec) afterCrash(e *Exec, t, r []string) {
+	switch t[0] {
+	case "schema":
+		s.loadFailed = r[0] != "ok" && r[0] != "corrupted"
+		if s.loadFailed {
+			s.fail(e, "C05", "%s the collection cannot be loaded after the crash: %s (schema left unreadable)", s.crashCtx, r[0])
+		}
+	case "repair":
+		s.repaired = r[0] == "ok"
+		if r[0] != "ok" && !s.loadFailed {
+			s.fail(e, "C05", "%s Repair fails after the crash: %s", s.crashCtx, r[0])
+		}
+	case "control":
+		if s.repaired && r[0] != "ok" {
+			s.fail(e, "C05", "%s Control still fails after Repair: %s", s.crashCtx, r[0])
+		}
+	case "all":
+		if s.loadFailed {
+			return
+		}
+		if r[0] != "ok" {
+			if s.lastCtl == "ok" {
+				s.fail(e, "C05", "%s an object is unreadable after the crash and Control reports nothing (%s)", s.crashCtx, r[0])
+			}
+			return
+		}
+		if s.preCrash == nil || s.ackChecked || (s.lastCtl != "ok" && !s.repaired) {
+			return
+		}
+		s.ackChecked = true
+		got := map[int]string{}
+		for _, tok := range r[2:] {
+			got[parseFlat(tok).U] = tok
+		}
+		for u, want := range s.preCrash {
+			nw, touched := s.crashTouch[u]
+			g, ok := got[u]
+			switch {
+			case !touched:
+				if !ok || g != want.String() {
+					s.fail(e, "C05", "%s object #%d acknowledged before the crash is not reflected after it (got %q)", s.crashCtx, u, g)
+				}
+			case nw.U == -1:
+				if ok && g != want.String() {
+					s.fail(e, "C05", "%s object #%d being deleted is neither gone nor intact", s.crashCtx, u)
+				}
+			default:
+				if !ok || (g != want.String() && g != nw.String()) {
+					s.fail(e, "C05", "%s object #%d being rewritten holds neither its old nor its new value (got %q)", s.crashCtx, u, g)
+				}
+			}
+		}
+		for u, g := range got {
+			if _, was := s.preCrash[u]; !was {
+				if nw, touched := s.crashTouch[u]; !touched || g != nw.String() {
+					s.fail(e, "C05", "%s object #%d appeared out of nowhere after the crash", s.crashCtx, u)
+				}
+			}
 		}
 	}
 }
